@@ -118,12 +118,13 @@ def check_conv(prog: Program, res: Result) -> None:
         full = astq.expand(mb.node, rets[0].value)
         stacks = [c for c in ast.walk(full) if isinstance(c, ast.Call) and norm(c.func).split(".")[-1] == "stack" and c.args and isinstance(c.args[0], (ast.List, ast.Tuple))
                   and len(c.args[0].elts) == 4]
-        firsts = {norm(c.args[0].elts[0]).replace(" ", "") for c in stacks}
-        if len(firsts) == 1:
-            first = firsts.pop()
-            ok = first in ("torch.stack([centroids[...,0]-box_width/2,centroids[...,1]-box_height/2],dim=-1)",
-                           "torch.stack((centroids[...,0]-box_width/2,centroids[...,1]-box_height/2),dim=-1)",
-                           "torch.stack([centroids[...,0]-box_width/2,centroids[...,1]-box_height/2],-1)")
+        firsts = [c.args[0].elts[0] for c in stacks]
+        if len({norm(f_) for f_ in firsts}) == 1:
+            f0 = firsts[0]
+            # the first corner is stack([x - w/2, y - h/2], last axis)
+            dim = astq.call_arg(f0, 1, "dim") if isinstance(f0, ast.Call) else None
+            pts = f0.args[0].elts if isinstance(f0, ast.Call) and norm(f0.func).split(".")[-1] == "stack" and f0.args and isinstance(f0.args[0], (ast.List, ast.Tuple)) else []
+            ok = len(pts) == 2 and astq.const_value(dim) == -1 and [norm(p_).replace(" ", "") for p_ in pts] == ["centroids[...,0]-box_width/2", "centroids[...,1]-box_height/2"]
     res.ob("C02-corner", ok, mb.qualname, "corner 0 is (x - w/2, y - h/2), the top-left corner",
            "make_centered_bboxes no longer lists (x - box_width/2, y - box_height/2) as its first corner", mb.where)
 
